@@ -388,7 +388,26 @@ def main(argv=None):
             unit_name, variant = ent[0], ent[1]
             only_fns = ent[2] if len(ent) > 2 else None
             log("[verus] unit %s %s %s" % (unit_name, variant or "", only_fns or ""))
-            r = run_verus_unit(repo, unit_name, variant, workdir, log, only_fns)
+            if variant and "any_of" in variant:
+                # alternative representation invariants: the unit's obligations hold if they are all discharged under ONE of the
+                # listed variants (each variant states an invariant, proves that every operation keeps it and that the consumer is
+                # correct under it).  Verdict: the first passing variant; if none passes, the first variant that has a refutation;
+                # otherwise undecided.
+                tried = []
+                for alt in variant["any_of"]:
+                    ra = run_verus_unit(repo, unit_name, dict(alt), workdir, log, only_fns)
+                    log("  variant %s -> %s" % (alt, ra["status"]))
+                    tried.append((alt, ra))
+                    if ra["status"] == "pass":
+                        break
+                pick = next((x for x in tried if x[1]["status"] == "pass"), None) or \
+                    next((x for x in tried if x[1].get("failures")), None) or tried[0]
+                r = pick[1]
+                variant = dict(pick[0])
+                r["alternatives_tried"] = [{"variant": a, "status": x["status"], "failed": [f["obligation"] for f in x.get("failures", [])],
+                                            "undecided": x.get("undecided", [])} for a, x in tried]
+            else:
+                r = run_verus_unit(repo, unit_name, variant, workdir, log, only_fns)
             results.append(r)
             log("  -> %s  obligations=%s discharged=%s  %.1fs" % (r["status"], r.get("obligations"), r.get("discharged"), r.get("wall_s", 0)))
             if r["status"] == "pass":
